@@ -169,6 +169,22 @@ theorem C05_precedence_pairs (o1 o2 : BinOp) (a b c : String) (h : o1.prec < o2.
   simp [printMin, printG, printRaw, paren, Ast.lvl, e1, e2, e3, e4, e5, e6] at h1 h2
   exact ⟨h1, h2⟩
 
+/-- the parentheses `printMin` writes are needed: without them the other tree is read -/
+theorem C05_parens_required (o1 o2 : BinOp) (a b c : String) (h : o1.prec < o2.prec) :
+    printMin (.bin o2 (.var a) (.bin o1 (.var b) (.var c))) =
+      [.name a, .op o2, .lparen, .name b, .op o1, .name c, .rparen] ∧
+    parse [.name a, .op o2, .name b, .op o1, .name c] ≠
+      some (.bin o2 (.var a) (.bin o1 (.var b) (.var c))) := by
+  constructor
+  · have hn := binop_prec_lt_not o2
+    have e1 : o1.prec < o2.prec + 1 := by omega
+    have e2 : ¬ (notPrec + 2 < o2.prec) := by omega
+    have e3 : ¬ (notPrec + 2 < o1.prec) := by omega
+    have e4 : ¬ (notPrec + 2 < o1.prec + 1) := by omega
+    simp [printMin, printG, printRaw, paren, Ast.lvl, e1, e2, e3, e4]
+  · rw [(C05_precedence_pairs o1 o2 a b c h).2]
+    simp
+
 /-- left associativity, also between different operators of one level (`#` and `^`) -/
 theorem C05_left_assoc (o1 o2 : BinOp) (a b c : String) (h : o1.prec = o2.prec) :
     parse [.name a, .op o1, .name b, .op o2, .name c] =
@@ -330,10 +346,26 @@ def semAst (tb : Tbl) : Ast → (String → Bool) → Option Bool
         | none => an y
     else none
 
-/-- FULL STATEMENT: `add_expr` returns the documented meaning of the formula -/
+/-- every `@n` of the tree names a node that is in the table (a node created by an earlier
+sub-formula of the same formula can also be named; the statement below leaves that case out) -/
+def numsIn (tb : Tbl) : Ast → Prop
+  | .num neg d => tb.Mem (if neg then -(digitsToNat d : Int) else (digitsToNat d : Int))
+  | .not e => numsIn tb e
+  | .bin _ l r => numsIn tb l ∧ numsIn tb r
+  | .ite a b c => numsIn tb a ∧ numsIn tb b ∧ numsIn tb c
+  | .quant _ _ e => numsIn tb e
+  | .subst _ e => numsIn tb e
+  | _ => True
+
+/-- FULL STATEMENT: `add_expr` returns the documented meaning of the formula.
+Not proved in this slice: it needs the specifications of `var`, `apply` (C01), `quantify`
+(C03) and `rename` (C04); what is proved is that `add_expr` evaluates exactly the tree the
+documented precedence gives (`C05_addExpr_printed`, `C05_addExpr_text`) by `evalAst`, which
+calls those operations bottom-up with the canonical operator values (`C05_binop_values`,
+`C05_spellings_same`). -/
 def C05_addExpr_spec_statement : Prop :=
   ∀ (m m' : Mgr) (s : String) (t : Ast) (r : Int), Inv m → m.lastLen = none →
-    parse (tokenize s) = some t → addExpr s m = (.ok r, m') →
+    parse (tokenize s) = some t → numsIn m.tbl t → addExpr s m = (.ok r, m') →
     Inv m' ∧ m'.tbl.Mem r ∧
     ∀ an, semAst m.tbl t an = some (den m'.tbl r (asgOf m'.tbl an))
 
